@@ -767,6 +767,50 @@ Proof.
     rewrite !Z.eqb_refl, !bytes_eqb_refl. reflexivity.
 Qed.
 
+Lemma opts_same_refl : forall a, opts_same a a = true.
+Proof. induction a as [|x a IH]; simpl; [reflexivity|rewrite Z.eqb_refl, bytes_eqb_refl, IH; reflexivity]. Qed.
+
+Lemma strip_ts_app_ts : forall os oob, strip_ts (os ++ [mkOpt OPT_TIMESTAMP oob]) = strip_ts os.
+Proof. intros. unfold strip_ts. rewrite filter_app. simpl. apply app_nil_r. Qed.
+
+(* a reply answers a request for the service or an SCMP request *)
+Lemma reply_is_service_or_scmp : forall c q oob t,
+  server_step c q oob = Send ToLastHop t ->
+  for_service (s_local_port c) q || match rx_l4 q with Scmp _ _ _ => true | _ => false end = true.
+Proof.
+  intros c q oob t HA.
+  destruct (reply_addressing mac reverse fetch_key ntp_handle c q oob t HA) as [_ [_ Hl4]].
+  destruct Hl4 as [[s [d [n [p [Hl [Hd _]]]]]]|[ty [code [p [rt [Hl _]]]]]].
+  - pose proof (reply_not_endhost c q oob t s d n p HA Hl) as He.
+    unfold for_service. rewrite Hl, Hd, Z.eqb_refl, He. reflexivity.
+  - rewrite Hl. apply orb_true_r.
+Qed.
+
+(* the extension headers of a forwarded packet, as the harness sockets see them *)
+Lemma srv_clause_fwdext : forall c q oob,
+  C13_srv_fwdext_ok (s_local_port c) q (obs_of c q oob) = true.
+Proof.
+  intros c q oob. unfold C13_srv_fwdext_ok.
+  destruct (server_step c q oob) as [why|d t] eqn:HA.
+  - destruct (_ || _); reflexivity.
+  - destruct d as [|host port].
+    + rewrite (reply_is_service_or_scmp c q oob t HA). reflexivity.
+    + apply (forward_iff mac reverse fetch_key ntp_handle) in HA.
+      destruct HA as [s [n [p [[_ [_ [_ [Hl [_ [_ [_ [Hn1 _]]]]]]]] [Hh Ht]]]]]. subst host t.
+      apply Z.eqb_neq in Hn1. unfold for_service. rewrite Hl, Hn1. cbn [andb orb].
+      cbn [srv_obs]. destruct (sock_index socks (h_dst_raw (rx_hdr q)) port 0); [|reflexivity].
+      cbn [forallb so_rx]. rewrite andb_true_r.
+      change (rx_ok (deliver (forward_tx q oob) nok)) with true. cbn [andb].
+      unfold deliver, forward_tx. cbn [rx_opts tx_e2e].
+      destruct (h_next (rx_hdr q) =? E2E_CLASS) eqn:He.
+      * destruct (zlen oob =? 0); cbn [negb].
+        -- rewrite He, app_nil_r. apply opts_same_refl.
+        -- change (E2E_CLASS =? E2E_CLASS) with true. cbv beta iota. rewrite strip_ts_app_ts. apply opts_same_refl.
+      * destruct (zlen oob =? 0); cbn [negb].
+        -- rewrite He. reflexivity.
+        -- change (E2E_CLASS =? E2E_CLASS) with true. reflexivity.
+Qed.
+
 (* clause 4: a packet due for forwarding to a visible socket is forwarded *)
 Lemma srv_clause_forward_due : forall c q oob,
   match forward_due (s_local_port c) (s_conn_port c) socks q with
